@@ -352,7 +352,6 @@ func zzH_decInit() {
 	if err == nil {
 		verifAssert(0 <= b.WindowSize && b.WindowSize < b.BufferSize, "Init: accepted configuration violates 0 <= WindowSize < BufferSize [C04,C05,C06,C07,C17,C18]")
 		verifAssert(len(b.Data) == 0 && b.R == 0 && b.Off == 0, "Init: buffer not empty [C04,C17]")
-		verifAssert(b.BufferSize >= cap(b.Data), "Init: BufferSize below the retained capacity [C04]")
 		zzDecInv(&b, "Init")
 		verifReach("accepted")
 		w := &zzFWriter{}
